@@ -154,6 +154,9 @@ func newNet(cfg cnCfg, scratch string) (*cnNet, error) {
 		n.users = append(n.users, u)
 		n.names[u.addr.String()] = u.name
 	}
+	for _, r := range []string{"0", "1"} {
+		n.names[staking.NewRuntimeAddress(runtimeID("R"+r)).String()] = "RA" + r
+	}
 	if err := n.buildGenesis(); err != nil {
 		return nil, err
 	}
